@@ -5,13 +5,16 @@ from ..gen import Opt, schema_lines, LIST, MULTI, TITLE, KEYSTRVAL, NOCASE
 from .C01 import hand_schemas
 
 THEOREMS = ["lex_line_count", "dqRun_line", "sqRun_line", "commentRun_line", "lineComment_line", "pstep_line",
-            "pstep_err_reported", "pstep_eof_reported"]
-PARTIAL = ("Proved: the scanner counts every newline exactly once on every path (lex_line_count, for inputs without '$': the body of a "
-           "${...} substitution is the unspecified zone); every step of the token machine that keeps running leaves the current context on "
-           "line + (scanner's count), through section entry and exit (pstep_line); scanner errors and premature end of input fail the parse "
-           "with a diagnostic naming the current file and line. Not proved: that *every* rejecting path of the 15 states emits a diagnostic "
-           "(checked on the implementation itself by the oracle 'rc=1 => >=1 diagnostic', which found and fixed one silent path), and the "
-           "restart at line 1 / restore on return for included files (modelled in parseLoop/doInclude, compared by the tie).")
+            "pstep_err_reported", "pstep_eof_reported", "pstep_nat", "C06_layout_independent"]
+PARTIAL = ("Proved: the scanner counts every newline exactly once on every path (lex_line_count, for inputs without '$': the body of a ${...} "
+           "substitution is the unspecified zone); every step of the token machine that keeps running leaves the current context on line + (scanner's "
+           "count), through section entry and exit (pstep_line); scanner errors and premature end of input fail the parse with a diagnostic naming the "
+           "current file and line; and the converse direction - positions are only ever reported, never acted on: the token machine commutes with the "
+           "erasure of every file name and line number (pstep_nat: 15 per-state lemmas through the store, the path resolver and the callbacks), so the "
+           "same tokens under ANY placement of newlines give the same acceptance, values at every depth, callback invocations and diagnostic classes "
+           "(C06_layout_independent). Not proved: that *every* rejecting path of the 15 states emits a diagnostic (checked on the implementation itself "
+           "by the oracle 'rc=1 => >=1 diagnostic', which found and fixed one silent path), and the restart at line 1 / restore on return for included "
+           "files at the level of the byte-level parse loop (modelled in parseLoop/doInclude, compared by the tie).")
 VARIANT = "asan"
 RULE = ("grammar-derived valid texts rendered with many newlines, #, //, /* */ (single/multi-line, empty) comments, multi-line and "
         "continued strings, 0-2 include levels; an error injected at a token position (wrong token, bad value, unknown name, cut); "
